@@ -120,6 +120,7 @@ def run(tier, seed):
         shutil.rmtree(d, ignore_errors=True)
         continue
       obj = {'prefix': jsonable(job['prefix']), 'rpc': jsonable(rpc), 'crash_before_event': job['k'], 'events': job['events']}
+      rec_recovered = rec      # what the restart found (the probes below go on to modify the database)
       rep.case(dict(obj, recovered_equals=('before' if rec == job['before'] else 'after' if rec == job['after'] else 'intermediate')),
                job['events'] > 1 and job['before'] != job['after'])
       # (i) all-or-nothing for single-resource calls; completed call (k beyond the last event) must be fully there
@@ -184,7 +185,7 @@ def run(tier, seed):
         break
       # model: recovered state = state after some prefix of the RPC's datastore calls
       pre = glist_pairs(job['prefix'])
-      cases.append('(%s, (%s, %s), %s)' % (pre, svc.g_rpc(rpc), oracle_of(rpc), svc.g_snapshot(rec)))
+      cases.append('(%s, (%s, %s), %s)' % (pre, svc.g_rpc(rpc), oracle_of(rpc), svc.g_snapshot(rec_recovered)))
       objs.append(obj)
       try:
         proxy._inner._connection.close()
